@@ -1,7 +1,7 @@
 (* python-brace: the typing rules of Field.__init__ are sound for CPython's format(): a value of a type the parser
    reports for a format spec is formatted by that spec -- except for the shapes of defect D24. *)
 From Coq Require Import List NArith ZArith Bool Lia.
-From I18n Require Import Lib.Outcome Model.FmtPyBrace Spec.CPyFormat Proofs.FmtPyBrace Proofs.FmtPyBraceMarkup.
+From I18n Require Import Lib.Outcome Model.FmtPyBrace Model.FmtPyBraceDomain Spec.CPyFormat Proofs.FmtPyBrace Proofs.FmtPyBraceMarkup.
 Import ListNotations.
 Local Open Scope N_scope.
 
@@ -590,12 +590,6 @@ Qed.
 End SpecSound.
 
 (* ---------------------------------------------------------------- the finite check *)
-Definition d24_bad (ty : option N) (alt sgn comma : bool) : bool :=
-  match ty with
-  | Some c => (comma && FmtPyBrace.in_chars c [98; 99; 111; 120; 88]) || ((sgn || alt) && (c =? 99))
-  | None => false
-  end.
-
 Definition val_in (v : bval) (tp : tset) : bool :=
   match v with
   | BStr _ => t_str tp
@@ -622,13 +616,6 @@ Proof.
     intros Ht; first [discriminate Ht|injection Ht as <-]; cbn; intros Hd Hvv;
     first [discriminate Hd|discriminate Hvv|reflexivity|(rewrite Hvv; reflexivity)].
 Qed.
-
-(* the guard that excludes D24: no "," with b c o x X, no sign or "#" with c *)
-Definition spec_guard (U : ucd) (tl : list N) : bool :=
-  match m_format_spec U tl with
-  | Some m => negb (d24_bad (sp_type m) (sp_alt m) (FmtPyBrace.is_some (sp_sign m)) (sp_comma m))
-  | None => true
-  end.
 
 (* a value of a type the parser reports for a format spec is formatted by CPython's format() with that spec *)
 Theorem spec_sound U M : ucd_spec U M -> forall ftext tl tp v,
